@@ -11,7 +11,7 @@
     `erg run`). *)
 From Coq Require Import ZArith List Bool.
 From ErgV Require Import CoreErg.Syntax CoreErg.Sem Typing.Types Typing.Check Typing.Eval Typing.Inject Typing.Spec
-     Typing.ProofsSound Typing.ProofsInject.
+     Typing.ProofsBasic Typing.ProofsInject.
 Import ListNotations.
 Open Scope Z_scope.
 
